@@ -191,6 +191,7 @@ func evalOnce(op *Op, ecos []Eco, vw view) (res string) {
 		}
 		return sb.String()
 	case KVers:
+		simrt.ResetOpSteps()
 		ok, err := vers.Contains(op.S, op.T)
 		if err != nil {
 			return "err"
